@@ -956,7 +956,7 @@ func (c *kase) checkQuiescent(tag string) {
 	}
 	left, ok := lx.LeakedFds(c.root, 10, filepath.Join(c.root, "metadata.db"))
 	if !ok {
-		c.r.Inconclusive("watchdog: sentinel finalizer did not run after runtime.GC()")
+		c.r.Inconclusive("watchdog: fd scan (sentinel finalizer did not run, or a directory-cache goroutine still owns a descriptor after 90 s)")
 	} else if len(left) > 0 {
 		show := left
 		if len(show) > 6 {
@@ -969,7 +969,7 @@ func (c *kase) checkQuiescent(tag string) {
 		case strings.Contains(left[0], "/httpcache/"):
 			kind = "httpcache"
 		}
-		c.violate("quiescence:open-fd-left:"+kind, fmt.Sprintf("no holder, everything expired, %d descriptor(s) below the resolver root survive 12 forced GC cycles: %v", len(left), show))
+		c.violate("quiescence:open-fd-left:"+kind, fmt.Sprintf("no holder, everything expired, %d descriptor(s) below the resolver root survive 2+10 forced GC cycles although no goroutine is inside the directory cache any more: %v", len(left), show))
 	}
 	c.count("fd_scans", 1)
 }
